@@ -679,7 +679,10 @@ impl<S: EntryIoStream, E: Entry> Receiver<S, E> {
         let span = tracing::span!(tracing::Level::TRACE, "metrics background queue", sink=?self.inner.name);
         let _enter = span.enter();
         let mut waker_tracker = WakerTracker::new(flush_queue_receiver);
-        let inner = self.inner.clone();
+        // The capacity never changes. Reading it up front (rather than through a second
+        // `Arc` clone) keeps `self.inner` the writer's only reference, so that
+        // `Arc::get_mut` below can detect that all appenders are gone.
+        let queue_capacity = self.inner.queue.capacity();
 
         loop {
             let next_flush = Instant::now() + self.flush_interval;
@@ -689,7 +692,7 @@ impl<S: EntryIoStream, E: Entry> Receiver<S, E> {
                 let (status, entry_count) = self.drain_until_deadline(next_flush);
 
                 waker_tracker.handle_waiting_wakers(
-                    || inner.queue.capacity(),
+                    || queue_capacity,
                     || self.flush_stream(),
                     status,
                     entry_count,
